@@ -98,7 +98,7 @@ def majority(ctx):
     ctx.ob("FRM", site, "None is returned exactly otherwise", ok, "")
 
 
-def counting_loop(ctx, cname, counters):
+def counting_loop(ctx, cname, ncounters):
     """Shape of a counting loop with monotone early exit.  Returns (trace, loop id, member term)."""
     site = cname + ".__call__"
     tr = call_trace(ctx, cname)
@@ -106,6 +106,11 @@ def counting_loop(ctx, cname, counters):
     if len(loops) != 1 or loops[0][1]["iter"] != P("detectors") or loops[0][1]["break"]:
         raise AnalysisError("%s: not a single loop over all detectors (unrecognised shape)" % cname)
     lid = loops[0][0]
+    # the counters are the locals that the loop body increments
+    counters = tuple(sorted({e.name for e in tr.of("local") if e.aug is not None and len(e.stack) == 1 and
+                             any((p.cond.single_atom() or ("",)) == ("inloop", lid) for p in e.pc)}))
+    if len(counters) != ncounters:
+        raise AnalysisError("%s: expected %d counter(s) incremented in the loop, found %s (unrecognised shape)" % (cname, ncounters, counters))
     member = atom(("iter", P("detectors"), lid))
     init = {e.name: e.value for e in tr.of("local") if e.aug is None and e.name in counters and not any((p.cond.single_atom() or ("",))[0] == "inloop" for p in e.pc)}
     ctx.ob("IDIOM", site, "counters start at 0 before the loop", all(init.get(c) == const(0) for c in counters), str({k: q.short(v, 20) for k, v in init.items()}))
@@ -127,10 +132,10 @@ def counting_loop(ctx, cname, counters):
 def minimum(ctx):
     cname = "MinimumApprovalElection"
     site = cname + ".__call__"
-    tr, lid, member, ret, augs = counting_loop(ctx, cname, ("num_approvals",))
+    tr, lid, member, ret, augs = counting_loop(ctx, cname, 1)
     if ret is None:
         return
-    c = atom(("loopvar", lid, "$num_approvals"))
+    c = atom(("loopvar", lid, "$" + augs[0].name))
     vote = [g for e in augs for g in guards(e) if is_vote(g, "drift", lambda m: m == member)]
     exit_conds = [p.cond for p in ret.pc if (p.cond.single_atom() or ("",))[0] != "inloop"]
     if not vote:
@@ -154,15 +159,25 @@ def minimum(ctx):
 def ordered(ctx):
     cname = "OrderedApprovalElection"
     site = cname + ".__call__"
-    tr, lid, member, ret, augs = counting_loop(ctx, cname, ("num_approvals", "num_confirmations"))
+    tr, lid, member, ret, augs = counting_loop(ctx, cname, 2)
     if ret is None:
         return
-    na = ("loopvar", lid, "$num_approvals")
-    nc = ("loopvar", lid, "$num_confirmations")
     Aa, Cc = ("attr", "approvals_needed"), ("attr", "confirmations_needed")
-    by = {e.name: e for e in augs}
-    if set(by) != {"num_approvals", "num_confirmations"} or len(augs) != 2:
+    # the approvals counter is the one whose own value decides which counter a drifting member increments
+    appr = None
+    for e in augs:
+        for g in guards(e):
+            if T.mentions(g, lambda z: z == Aa):
+                lv = [z for z in T.atoms_of(g, "loopvar") if z[2].startswith("$")]
+                if len(lv) == 1:
+                    appr = lv[0][2][1:]
+    names = {e.name for e in augs}
+    if appr not in names or len(names) != 2 or len(augs) != 2:
         raise AnalysisError("OrderedApprovalElection: counters not recognised")
+    conf = (names - {appr}).pop()
+    na = ("loopvar", lid, "$" + appr)
+    nc = ("loopvar", lid, "$" + conf)
+    by = {("num_approvals" if e.name == appr else "num_confirmations"): e for e in augs}
     bad = []
     try:
         for a_ in range(0, N):
@@ -204,7 +219,20 @@ def confirmed(ctx):
     (l1, v1), (l2, v2) = loops
     i1 = atom(("idx", l1))
     # the member state and its counter as seen in the vote loop
-    augs = [e for e in tr.of("local") if e.name in ("num_drift", "num_warning") and e.aug is not None]
+    in1 = lambda e: any((p.cond.single_atom() or ("",)) == ("inloop", l1) for p in e.pc)
+    cnames = sorted({e.name for e in tr.of("local") if e.aug is not None and len(e.stack) == 1 and in1(e)})
+    rets0 = [e for e in tr.returns() if len(e.stack) == 1]
+    drift_name = None
+    if rets0:
+        for conds, leaf in q.ite_leaves(rets0[0].value):
+            if leaf == const("drift") and conds:
+                lv = [z for z in T.atoms_of(conds[-1], "loopvar") if z[2].startswith("$")]
+                if len(lv) == 1:
+                    drift_name = lv[0][2][1:]
+    if len(cnames) != 2 or drift_name not in cnames:
+        raise AnalysisError("ConfirmedElection: vote counters not recognised (%s)" % cnames)
+    warn_name = [n for n in cnames if n != drift_name][0]
+    augs = [e for e in tr.of("local") if e.name in cnames and e.aug is not None and in1(e)]
     cm = [e for e in tr.mutations("wait_period_counters") if any((p.cond.single_atom() or ("",)) == ("inloop", l1) for p in e.pc)]
     if not augs:
         raise AnalysisError("ConfirmedElection: vote counters not recognised")
@@ -239,7 +267,7 @@ def confirmed(ctx):
             if h is None:
                 raise AnalysisError("ConfirmedElection: chain not decidable by constant folding")
             if h:
-                if e.name == "num_drift":
+                if e.name == drift_name:
                     nd += 1
                 else:
                     nw += 1
@@ -282,8 +310,8 @@ def confirmed(ctx):
     rets = [e for e in tr.returns() if len(e.stack) == 1]
     ctx.ob("ORD", site, "single return after the expiry loop", len(rets) == 1 and ex and rets[0].seq > ex[0].seq and not rets[0].pc, "")
     # verdict chain
-    nd = atom(("loopvar", l1, "$num_drift"))
-    nw = atom(("loopvar", l1, "$num_warning"))
+    nd = atom(("loopvar", l1, "$" + drift_name))
+    nw = atom(("loopvar", l1, "$" + warn_name))
     s_ = A("sensitivity")
     want = T.mk_ite(T.mk_cmp(">=", nd, s_), const("drift"), T.mk_ite(T.mk_cmp(">=", nw + nd, s_), const("warning"), T.NONE))
     got = rets[0].value if rets else None
